@@ -46,6 +46,13 @@ def check_allocator(ctx, pid="C27"):
                   found="; ".join(lin_str(to_lin(w.rhs)) for w in plain) or "no unconditional update", required="allocated' = allocated + <alloc count> - <free count>, every cycle")
         if ac is None:
             continue
+        # declared ranges: the per-cycle counts can equal max_alloc / max_free, as can the count arguments
+        from . import ranges
+
+        for sig, nm, mx in ((ac, "alloc", "self.max_alloc"), (fc, "free", "self.max_free")):
+            o_ = ex.obj(sig)
+            ranges.signal_range(ctx, f"{pid}.count-range", o_.site if o_ else comp.site, f"CircularAllocator.{nm}_count.shape[{cn}]", o_.ctor if o_ else None, f"{mx} + 1", f"a call can {nm} {mx} identifiers at once")
+            ranges.layout_field_range(ctx, f"{pid}.count-range", comp.site, f"CircularAllocator.{nm}.count-argument[{cn}]", comp.init_attr(nm), "i", "count", f"{mx} + 1", f"the count argument can be {mx}")
         check_table(ctx, f"{pid}.clear-wins", comp.site, f"CircularAllocator.allocated'[{cn}]", t, [
             (run_f(cl), const_pred(0), "clear resets the occupancy (last writer)"),
             (f_not(run_f(cl)), lambda r, p=plain[0].rhs: r == p, "otherwise the counter update applies"),
